@@ -78,7 +78,8 @@ PLANS["C02"] = dict(
     jobs=sharded("c02", "C02", 4800, 72000, max_s_quick=90, max_s_thorough=1200), replay=replay_with("c02", "C02"),
     rule="one evaluation = one (annotated grammar, LR settings, input) triple parsed with partial_parse off and on by the real LR parser; every Ok tree is validated node by node against the abstract grammar "
          "(root = start rule, children symbols = production right-hand side, leaves = the tokens of the input / of a token prefix, kinds, texts and spans), "
-         "Ok with partial off implies the identical tree with partial on; non-trivial = distinct (grammar, settings) where a conflict was resolved by meta-data/settings and an input of >= 3 tokens parsed Ok",
+         "Ok with partial off implies the identical tree with partial on; then one parser object parses a shuffled history of up to 60 of the same inputs (accepted and rejected interleaved) "
+         "and every Ok tree of that object is validated the same way and compared with the fresh-object tree; non-trivial = distinct (grammar, settings) where a conflict was resolved by meta-data/settings and an input of >= 3 tokens parsed Ok",
     assumptions=BNF_ASSUME + ["random priorities {5,15,20}, left/right/reduce/shift on productions, rules and terminals, nops/nopse, prefer_shifts, prefer_shifts_over_empty, tables LALR and LALR_PAGER",
                               "runs that exceed the logical step budget (20000*(bytes+1) table queries) are counted, not judged: non-termination belongs to C15"],
     floor=dict(quick=40, thorough=400),
